@@ -56,11 +56,32 @@ class TaskGroup:
             config.max_app_queue_size
         )
 
-        async def _put(message: ASGIReceiveEvent) -> None:
+        app_task: Optional[trio.lowlevel.Task] = None
+
+        async def _send_to_app(message: ASGIReceiveEvent) -> None:
             try:
                 await app_send_channel.send(message)
             except (trio.BrokenResourceError, trio.ClosedResourceError):
                 pass  # The app has finished
+
+        async def _put(message: ASGIReceiveEvent) -> None:
+            if trio.lowlevel.current_task() is app_task:
+                # Put from within one of the app's own sends (e.g. the
+                # disconnect that follows its final send), waiting for
+                # room here would be waiting for the app itself.
+                try:
+                    app_send_channel.send_nowait(message)
+                except trio.WouldBlock:
+                    self._nursery.start_soon(_send_to_app, message)
+                except (trio.BrokenResourceError, trio.ClosedResourceError):
+                    pass  # The app has finished
+            else:
+                await _send_to_app(message)
+
+        async def _run(*args: Any) -> None:
+            nonlocal app_task
+            app_task = trio.lowlevel.current_task()
+            await _handle(*args)
 
         async def _send(message: Optional[ASGISendEvent]) -> None:
             if message is None:
@@ -72,7 +93,7 @@ class TaskGroup:
             await send(message)
 
         self._nursery.start_soon(
-            _handle,
+            _run,
             app,
             config,
             scope,
